@@ -320,13 +320,16 @@ func c06VetoAndMatrixGrids(s *Shard) {
 		vals []float64
 		thr  [][]thr
 		ks   [][]float64
+		mul  []float64 // optional per-criterion scale of the values (mixed magnitudes)
 	}
 	dgs := []dg{
-		{[]float64{0, 1, 4, 7}, [][]thr{{{Q: 1, P: 2, V: 4}, {Q: 1, P: 3, V: 6}}, {{Q: 1, P: 3, V: 6}, {Q: 1, P: 2, V: 4}}}, [][]float64{{2, 1}, {1, 1}, {1, 2}}},
-		{[]float64{0, 6, 7, 10, 11, 20}, [][]thr{{{Q: 1, P: 2, V: 5}, {Q: 1, P: 2, V: 12}, {Q: 1, P: 2, V: 12}}, {{Q: 1, P: 2, V: 12}, {Q: 1, P: 2, V: 12}, {Q: 1, P: 2, V: 12}}}, [][]float64{{6, 2, 2}, {2, 2, 2}}},
+		{vals: []float64{0, 1, 4, 7}, thr: [][]thr{{{Q: 1, P: 2, V: 4}, {Q: 1, P: 3, V: 6}}, {{Q: 1, P: 3, V: 6}, {Q: 1, P: 2, V: 4}}}, ks: [][]float64{{2, 1}, {1, 1}, {1, 2}}},
+		{vals: []float64{0, 6, 7, 10, 11, 20}, thr: [][]thr{{{Q: 1, P: 2, V: 5}, {Q: 1, P: 2, V: 12}, {Q: 1, P: 2, V: 12}}, {{Q: 1, P: 2, V: 12}, {Q: 1, P: 2, V: 12}, {Q: 1, P: 2, V: 12}}}, ks: [][]float64{{6, 2, 2}, {2, 2, 2}}},
 	}
-	tiny := dg{[]float64{0, 1e-9, 4e-9, 7e-9}, [][]thr{{{Q: 1e-9, P: 2e-9, V: 4e-9}, {Q: 1e-9, P: 3e-9, V: 6e-9}}}, [][]float64{{2, 1}, {1, 1}}}
-	dgs = append(dgs, tiny)
+	tiny := dg{vals: []float64{0, 1e-9, 4e-9, 7e-9}, thr: [][]thr{{{Q: 1e-9, P: 2e-9, V: 4e-9}, {Q: 1e-9, P: 3e-9, V: 6e-9}}}, ks: [][]float64{{2, 1}, {1, 1}}}
+	// one criterion measured at the 1e-9 scale next to an ordinary one
+	mixed := dg{vals: []float64{0, 1, 4, 7}, mul: []float64{1e-9, 1}, thr: [][]thr{{{Q: 1e-9, P: 2e-9, V: 4e-9}, {Q: 1, P: 3, V: 6}}, {{Q: 1e-9, P: 3e-9, V: 6e-9}, {Q: 1, P: 2, V: 4}}}, ks: [][]float64{{2, 1}, {1, 1}, {1, 2}}}
+	dgs = append(dgs, tiny, mixed)
 	for _, g := range dgs {
 		m := len(g.thr[0])
 		dims := make([]int, 2*m)
@@ -338,15 +341,21 @@ func c06VetoAndMatrixGrids(s *Shard) {
 				return
 			}
 			a, x := make([]float64, m), make([]float64, m)
+			sc := func(j int) float64 {
+				if g.mul != nil {
+					return g.mul[j]
+				}
+				return 1
+			}
 			for j := 0; j < m; j++ {
-				a[j], x[j] = g.vals[idx[j]], g.vals[idx[m+j]]
+				a[j], x[j] = g.vals[idx[j]]*sc(j), g.vals[idx[m+j]]*sc(j)
 			}
 			for j := 0; j < m; j++ {
 				if idx[j] == 0 {
 					continue
 				}
 				b := append([]float64{}, a...)
-				b[j] = g.vals[idx[j]-1]
+				b[j] = g.vals[idx[j]-1] * sc(j)
 				for _, th := range g.thr {
 					for _, k := range g.ks {
 						types := make([]string, m)
